@@ -20,7 +20,7 @@ from vlib import VI, VB, VS, VL
 import regen_c05
 
 PID = "C05"
-THEOREMS = ["cmd_roundtrip", "cmd_roundtrip_fuses_refuted", "kdf_spec", "stream_ends_everywhere", "chain_authenticates",
+THEOREMS = ["cmd_roundtrip", "fuses_whole_words", "kdf_spec", "stream_ends_everywhere", "chain_authenticates",
             "signature_binds_whole_file", "coverage31", "rom31_build_first", "rom31_build_history"]
 SCRATCH = os.path.join(vlib.WORK, PID, "run")       # proposed_fix_*.diff live next to it and survive
 KEYDIR = os.path.join(SCRATCH, "keys")
@@ -437,7 +437,7 @@ def gen_cases(tier, rng):
     S["KeyDerivator: PCK 128/192/256, key length 128/256, rights 0..3"] = kd
     # --- (e) containers and export histories
     co = []
-    ncont = 480 if thorough else 48
+    ncont = 400 if thorough else 48
     combos = [(curve, enc, isk, pl) for curve in (256, 384) for enc in (1, 0) for isk in (0, 1) for pl in (16, 32)]
     for i in range(ncont):
         curve, enc, isk, pl = combos[i % len(combos)]
@@ -466,7 +466,7 @@ def gen_cases(tier, rng):
     S["SecureBinary31: invalid configurations (error class)"] = bad
     S["nxpimage sb31 export: configuration files (12 command kinds, numbers as int / hex / decimal strings)"] = \
         [gen_config_case(rng, i) for i in range(120 if thorough else 15)]
-    # the recorded finding: fuse data that is not a whole number of words
+    # former finding C05-F1 (repaired): fuse data that is not a whole number of words must be refused
     S["SecureBinary31: programFuses data not a multiple of 4 bytes"] = [dict(co[0], cmds=[[5, 0x100, "0102030405"]], n_exports=1)]
     return S
 
@@ -518,6 +518,8 @@ def is_err(x):
 
 def cmd_valid(c):
     t = c[0]
+    if t == 5 and (len(c[2]) // 2) % 4:
+        return False          # CmdProgFuses refuses data that is not whole 32-bit words
     for i, x in enumerate(c[1:], 1):
         if isinstance(x, int):
             lim = 0x10000 if t == 10 else U32
@@ -588,8 +590,10 @@ def _run(rep, rng, tier):
             tname = TAGS[cmd[0]]
             exp_hex, parsed = r
             valid = cmd_valid(cmd)
-            if is_err(exp_hex) and valid and cmd[0] == 5 and (len(cmd[2]) // 2) % 4 and exp_hex.startswith("!e1"):
-                continue      # finding C05-F1 repaired upstream: fuse data that is not whole words is refused (the specified outcome)
+            odd = cmd[0] == 5 and (len(cmd[2]) // 2) % 4 != 0        # fuse data that is not whole 32-bit words: must be refused
+            if odd and not (is_err(exp_hex) and exp_hex.startswith("!e1")):
+                fail("export_cmd:programFuses:accepts-data-length-not-multiple-of-4",
+                     f"CmdProgFuses accepts {len(cmd[2]) // 2} bytes of fuse data (not whole words): {exp_hex[:80]}", c)
             if is_err(exp_hex):
                 if valid:
                     fail(f"export_cmd:{tname}:rejects-valid", f"{tname}{cmd[1:]} cannot be exported: {exp_hex}", c)
@@ -709,8 +713,6 @@ def _run(rep, rng, tier):
             for e_, want, got, (idx, what) in zip(exprs, expect, model_res, meta):
                 if want is None:
                     continue
-                if (what == "parse" and want == ("e", 1) and got[0] == "l" and got[1][0] == ("i", 5) and len(got[1][2][1]) % 4):
-                    continue      # class of finding C05-F1 after an upstream repair: fuse data of a broken length is refused
                 if want != got:
                     ndis += 1
                     dis_ops[what] = dis_ops.get(what, 0) + 1
@@ -739,7 +741,7 @@ def _run(rep, rng, tier):
         checker_cmd="coqc -R . V Props/C05/*.v (after make Proofs/Sb31Proofs.vo; thorough: coqchk -o over the closure)",
         assumptions=["timestamp > 0 (0 / None means 'now' in SPSDK)", "command data and keys are byte strings",
                      "export(cert_block=...) override is not used", "the signature provider returns 2*hash_len bytes",
-                     "cmd_roundtrip / rom31_build_* require programFuses data of whole 32-bit words (finding C05-F1 otherwise)"])
+                     "programFuses data is whole 32-bit words (anything else is refused by the constructor: fuses_whole_words)"])
 
 
 def check_container(rep, c, r, idx, name, pubs, exprs, expect, meta, nontrivial, fail):
@@ -760,8 +762,6 @@ def check_container(rep, c, r, idx, name, pubs, exprs, expect, meta, nontrivial,
             vlib.coq_lit(VL([VB(s) for s in sigs]))]) + "]")
 
     if "construct" in r:
-        if valid and any(x[0] == 5 and (len(x[2]) // 2) % 4 for x in c["cmds"]) and r["construct"].startswith("!e1"):
-            return            # finding C05-F1 repaired upstream: such a command is refused when it is created
         if valid:
             fail("container:construct:rejects-valid", f"constructor failed on a valid configuration: {r['construct']}", c)
         if c["pck"] is not None:      # pck=None is a Python-level distinction the model does not carry
